@@ -107,8 +107,15 @@ ResCfg(cfg) == IF cfg[1] = "Result" THEN cfg ELSE cfg[2]
 Wrap(cfg, v) == IF cfg[1] = "List" THEN <<"list", <<ValidVal(cfg)[2][1], v>>>> ELSE v
 \* every producer / consumer pairing: the consumer's result parameter refers to a command PP of every data-producing kind
 Pairings(d) == UNION {(IF IsRes(Params(d)[k][2]) THEN {<<"pair", Params(d)[k][1], c>> : c \in {c \in DeclNames : OutKind(D(c)) = "data"}} ELSE {}) : k \in 1..Len(Params(d))}
+\* C14 over the real commands: a reference cycle closed through each result parameter of each command - the parameter of the command under test T refers to a
+\* command U that refers back to T (U chosen so that every reference is well-typed), or, for an untyped result parameter, to T itself
+CycleFaultsOf(d) ==
+    UNION {(IF IsRes(Params(d)[k][2]) /\ (OutKind(d) = "data" \/ ResCfg(Params(d)[k][2])[2] = "any")
+            THEN {<<"cycle", Params(d)[k][1], <<>>>>} \cup (IF ResCfg(Params(d)[k][2])[2] = "any" THEN {<<"selfloop", Params(d)[k][1], <<>>>>} ELSE {})
+            ELSE {}) : k \in 1..Len(Params(d))}
 FaultsOf(d) ==
     {<<"none", "", <<>>>>, <<"unknown", "", <<>>>>, <<"foreign", "", <<>>>>, <<"dup", "", <<>>>>, <<"undeclared", "", <<>>>>}
+    \cup (IF Pairs THEN CycleFaultsOf(d) ELSE {})
     \cup {<<"missing", pn, <<>>>> : pn \in Required(d)}
     \cup (IF Pairs THEN Pairings(d) ELSE {})
     \cup UNION {{<<"wrong", Params(d)[k][1], w>> : w \in Wrong(Params(d)[k][2])} : k \in 1..Len(Params(d))}
@@ -131,6 +138,25 @@ Target(cname, all, f) ==
       [] f[1] = "missing" -> <<"T", cname, SelectSeq(base, LAMBDA a : a[1] # f[2])>>
       [] f[1] = "wrong" -> <<"T", cname, SetArg(base, f[2], f[3])>>
       [] f[1] = "pair" -> <<"T", cname, SetArg(base, f[2], Wrap(Cfg(d, f[2]), <<"ref", "PP">>))>>
-Fix(f) == IF f[1] = "pair" THEN Fixture \o <<Cmd("PP", f[3], FALSE)>> ELSE Fixture
-Build(cname, all, f, pos) == IF pos = "first" THEN <<Target(cname, all, f)>> \o Fix(f) ELSE Fix(f) \o <<Target(cname, all, f)>>
+      [] f[1] = "cycle" -> <<"T", cname, SetArg(base, f[2], Wrap(Cfg(d, f[2]), <<"ref", "U">>))>>
+      [] f[1] = "selfloop" -> <<"T", cname, SetArg(base, f[2], Wrap(Cfg(d, f[2]), <<"ref", "T">>))>>
+\* the command that closes the cycle: it consumes T and produces what T's parameter wants
+BackEdge(cname, pn) ==
+    LET d == D(cname) want == ResCfg(Cfg(d, pn)) IN
+    IF want[2] = "any" THEN <<"U", "PrintVars", << <<"InFieldNames", <<"list", <<<<"ref", "T">>>>>> >> >> >>
+    ELSE IF want[3] = "fuzzy" THEN (IF Fuzz(d) = "fuzzy" THEN <<"U", "FuzzyNot", << <<"InFieldName", <<"ref", "T">>>> >> >>
+                                    ELSE <<"U", "CvtToFuzzy", << <<"InFieldName", <<"ref", "T">>>> >> >>)
+    ELSE IF Fuzz(d) = "fuzzy" THEN <<"U", "CvtFromFuzzy", << <<"InFieldName", <<"ref", "T">>>>, <<"TrueThreshold", <<"int", "other">>>>, <<"FalseThreshold", <<"float">>>> >> >>
+    ELSE <<"U", "Copy", << <<"InFieldName", <<"ref", "T">>>> >> >>
+Fix(cname, f) == IF f[1] = "pair" THEN Fixture \o <<Cmd("PP", f[3], FALSE)>>
+                 ELSE IF f[1] = "cycle" THEN Fixture \o <<BackEdge(cname, f[2])>> ELSE Fixture
+Build(cname, all, f, pos) == IF pos = "first" THEN <<Target(cname, all, f)>> \o Fix(cname, f) ELSE Fix(cname, f) \o <<Target(cname, all, f)>>
+
+\* ---------- reference cycles of a program
+RECURSIVE RefsOf(_)
+RefsOf(v) == IF v[1] = "ref" THEN {v[2]} ELSE IF v[1] = "list" THEN UNION {RefsOf(v[2][k]) : k \in 1..Len(v[2])} ELSE {}
+DepNames(prog, c) == UNION {RefsOf(Args(c)[k][2]) : k \in 1..Len(Args(c))} \cap Results(prog)
+RECURSIVE ReachNames(_, _, _)
+ReachNames(prog, S, n) == IF n = 0 THEN S ELSE ReachNames(prog, S \cup UNION {DepNames(prog, Producer(prog, x)) : x \in S}, n - 1)
+Cyclic(prog) == \E i \in 1..Len(prog) : Res(prog[i]) \in ReachNames(prog, DepNames(prog, prog[i]), Len(prog))
 =============================================================================
